@@ -181,13 +181,32 @@ func writeNamedType(w *formatting.IndentedWriter, td *dsl.NamedType) {
 	}
 
 	// // If the NamedType is Generic and resolves to a RecordDefinition, we can drop the type parameters in the alias declaration
-	if dsl.IsGeneric(td) && resolvesToRecord {
+	// (only if it hands its own type parameters on unchanged: `Alias<A, B>: Rec<A, B>`, not `Alias<T>: Rec<T, int>`)
+	if dsl.IsGeneric(td) && resolvesToRecord && passesTypeParametersThrough(td) {
 		fmt.Fprintf(w, "%s = %s\n", common.TypeIdentifierName(td.Name), common.TypeSyntaxWithoutTypeParameters(td.Type, td.Namespace))
 	} else {
 		fmt.Fprintf(w, "%s = %s\n", common.TypeIdentifierName(td.Name), common.TypeSyntax(td.Type, td.Namespace))
 	}
 	common.WriteDocstring(w, td.Comment)
 	w.Indent().WriteStringln("")
+}
+
+// Whether the alias is declared as `Alias<P1, ..., Pn>: Target<P1, ..., Pn>`
+func passesTypeParametersThrough(td *dsl.NamedType) bool {
+	st, ok := td.Type.(*dsl.SimpleType)
+	if !ok || len(st.TypeArguments) != len(td.TypeParameters) {
+		return false
+	}
+	for i, arg := range st.TypeArguments {
+		argType, ok := arg.(*dsl.SimpleType)
+		if !ok || len(argType.TypeArguments) > 0 {
+			return false
+		}
+		if param, ok := argType.ResolvedDefinition.(*dsl.GenericTypeParameter); !ok || param != td.TypeParameters[i] {
+			return false
+		}
+	}
+	return true
 }
 
 func writeRecord(w *formatting.IndentedWriter, rec *dsl.RecordDefinition, st dsl.SymbolTable) {
